@@ -47,6 +47,9 @@ struct Agg {
     samples: Vec<Value>,
     rejected_samples: Vec<Value>,
     gates: u64,
+    join_counts: Counts,
+    join_distinct: HashSet<u64>,
+    join_samples: Vec<Value>,
 }
 
 pub fn cfg_for(kind: Kind, tier: Tier, rng: &mut Rng) -> GenCfg {
@@ -106,6 +109,12 @@ pub fn run(ctx: &Ctx, kind: Kind) -> i32 {
             case_no += 1;
             let case_seed = rng.next_u64();
             let mut crng = Rng::new(case_seed);
+            // C01: one case in sixteen is a program that returns `join(a, b)`, judged by the oracle
+            // of the join built-in (C13) on sorted inputs - the value the source program denotes
+            if kind == Kind::C01 && case_no % 16 == 7 {
+                super::c13::join_builtin_round(ctx, &mut crng, &mut agg.join_counts, &mut agg.join_distinct, &mut agg.join_samples, case_no, 6);
+                continue;
+            }
             // C02 needs line-exact locations: always token-per-line; the others alternate
             let layout = if kind == Kind::C02 || case_no % 2 == 0 { Layout::TokenPerLine } else { Layout::Compact };
             let cfg = cfg_for(kind, ctx.tier, &mut crng);
@@ -251,6 +260,7 @@ pub fn run(ctx: &Ctx, kind: Kind) -> i32 {
         t.st.branches_skipped += a.st.branches_skipped;
         t.st.cross_checked += a.st.cross_checked;
         t.constructs.merge(&a.constructs);
+        t.join_counts.merge(&a.join_counts);
         t.other_property_mismatches.merge(&a.other_property_mismatches);
         t.distinct.extend(a.distinct);
         if t.samples.len() < 3 {
@@ -287,6 +297,9 @@ pub fn run(ctx: &Ctx, kind: Kind) -> i32 {
     cov.insert("branches_arms_operands_not_taken".into(), json!(t.st.branches_skipped));
     cov.insert("cross_checked_with_garble_api".into(), json!(t.st.cross_checked));
     cov.insert("constructs_in_compiled_programs".into(), t.constructs.to_json());
+    if kind == Kind::C01 {
+        cov.insert("join_builtin_programs".into(), t.join_counts.to_json());
+    }
     cov.insert("disagreements_belonging_to_other_properties".into(), t.other_property_mismatches.to_json());
     cov.insert("rejected_or_crashing_samples".into(), json!(t.rejected_samples));
     cov.insert("exhaustive".into(), json!(false));
@@ -317,6 +330,10 @@ pub fn replay(kind: Kind, path: &str) -> i32 {
         return 2;
     };
     let tier = if v["tier"].as_str() == Some("thorough") { Tier::Thorough } else { Tier::Quick };
+    if v["case"]["kind"].as_str() == Some("join") {
+        eprintln!("a `join` built-in witness: the replay file holds the program and the two sorted argument arrays (fields program, a, b, problem)");
+        return 2;
+    }
     let Some(case_seed) = v["case"]["case_seed"].as_u64() else {
         eprintln!("replay file has no case_seed");
         return 2;
